@@ -100,6 +100,8 @@ def jv_sx(v):
         return [2, v]
     if isinstance(v, str):
         return [3, v]
+    if isinstance(v, tuple):
+        return [6, [jv_sx(x) for x in v]]
     if isinstance(v, list):
         return [4, [jv_sx(x) for x in v]]
     if isinstance(v, dict):
@@ -116,6 +118,8 @@ def jv_coq(v) -> str:
         return f"(JInt {H.z(v)})"
     if isinstance(v, str):
         return f"(JStr {H.coq_text(v)})"
+    if isinstance(v, tuple):
+        return "(JTuple " + H.coq_list(jv_coq(x) for x in v) + ")"
     if isinstance(v, list):
         return "(JList " + H.coq_list(jv_coq(x) for x in v) + ")"
     if isinstance(v, dict):
@@ -169,7 +173,17 @@ def dec(j, U):
     raise ValueError(j)
 
 
-SM_KINDS = ["none", "set", "wrap", "new", "newdrop", "extra", "guid"]
+SM_KINDS = ["none", "set", "wrap", "new", "newdrop", "extra", "guid", "tuple"]
+
+
+def json_norm(v):
+    """reference for what json.loads(json.dumps(v)) is on the value kinds used here: tuples come back as lists,
+    everything else (None/bool/int/str, lists, str-keyed dicts in order) unchanged"""
+    if isinstance(v, (list, tuple)):
+        return [json_norm(x) for x in v]
+    if isinstance(v, dict):
+        return {k: json_norm(x) for k, x in v.items()}
+    return v
 
 
 def make_ser(kind, U):
@@ -182,6 +196,10 @@ def make_ser(kind, U):
     if kind == "wrap":
         def ser(node, data):
             data["data"] = [data["data"], enc(node.data, U)]
+        return ser
+    if kind == "tuple":   # outside the JSON-able subset: the mapper writes a tuple (JSON turns it into a list)
+        def ser(node, data):
+            data["data"] = (data["data"], enc(node.data, U))
         return ser
     if kind == "extra":   # the style of the pinned suite: leave "data", add entries, return the dict
         def ser(node, data):
@@ -207,7 +225,7 @@ def make_ser(kind, U):
 
 def payload(kind, v):
     """the part of item['data'] the decoder reads"""
-    return v[1] if kind == "wrap" else v
+    return v[1] if kind in ("wrap", "tuple") else v
 
 
 def decode_item(kind, item, U):
@@ -274,6 +292,8 @@ def coq_smd(kind, U, tree_nodes):
         return f"(SMset {tbl})"
     if kind == "wrap":
         return f"(SMwrap {tbl})"
+    if kind == "tuple":
+        return f"(SMtuple {tbl})"
     if kind == "extra":
         return f"(SMextra {tbl})"
     if kind == "guid":
@@ -438,12 +458,12 @@ class Prop:
     rule = ("plain trees: every ordered forest with <= 3 nodes x every labeling over 2 strings x data_id in {default, 0, '', 'k', "
             "hash(data)} that the tree accepts (quick: 3-node forests with {default, 0} only); every forest with <= N nodes (N=5 "
             "quick, 6 thorough) x 8 labeling patterns (distinct strings; strings JSON must escape; unhashable dicts/dataclasses under explicit ids; clones in different parents; explicit/falsy/default-valued ids; "
-            "value-equal objects, tuples, ints, dataclasses; identity-hashed objects; '7' next to 7) x the 7 serialisation mappers (none / "
+            "value-equal objects, tuples, ints, dataclasses; identity-hashed objects; '7' next to 7) x the 8 serialisation mappers (a tuple-writing one / none / "
             "set data in place / wrap / new dict keeping or dropping data_id / extra entry popped by the decoder / data_id moved to "
-            "another key and restored into item['data_id'] by the deserialize mapper) with the inverse deserialisation mapper (quick: all 7 up to 3 nodes, 3 of 7 at 4 "
-            "nodes, 1 of 7 at 5 nodes; thorough: all up to 5 nodes, 2 of 7 at 6 nodes); trees under a calc_data_id hook; typed trees; emptied trees (clear, remove of the last top "
+            "another key and restored into item['data_id'] by the deserialize mapper) with the inverse deserialisation mapper (quick: all 8 up to 3 nodes, 3 of 8 at 4 "
+            "nodes, 1 of 8 at 5 nodes; thorough: all up to 4 nodes, 3 of 8 at 5 nodes, 2 of 8 at 6 nodes); trees under a calc_data_id hook; typed trees; emptied trees (clear, remove of the last top "
             "node); trees reached through mutation histories (remove, remove(keep_children), remove_children, move_to, filter, add, "
-            "clear + re-add: every single operation on every node of every forest <= 3 nodes, pairs on 4 nodes, random histories); seeded random trees (5..18 nodes quick, 5..30 thorough); 47 hand-written + 150 (thorough 800) random dict lists (missing/unhashable data, bad data_id / node_id / children entries, non-dict items); Node.from_dict "
+            "clear + re-add: every single operation on every node of every forest <= 3 nodes, pairs on 4 nodes, random histories); seeded random trees (5..18 nodes quick, 5..30 thorough); 47 hand-written + 150 (thorough 500) random dict lists (missing/unhashable data, bad data_id / node_id / children entries, non-dict items); Node.from_dict "
             "into every node of every forest <= 3 (thorough 4) nodes x 3 calc_data_id hooks x 6 item lists.  Every dump goes through "
             "json.dumps/json.loads before from_dict.  A case is one tree (or one dict list); distinct = distinct desc; non-trivial = >= 3 nodes")
     exhaustive_note = ("all shapes <= 3 nodes x all labelings (2 strings x 5 data_id choices; quick: 2 choices at 3 nodes); "
@@ -473,9 +493,16 @@ class Prop:
               "correspondence check (vm_compute; every dump really goes through json.dumps/json.loads) and an independent Python oracle "
               "walking _children pointers."),
         note=("Trusted: Coq kernel + vm_compute; hand-written model theories/Forest/DictList.v (tied by the correspondence and the "
-              "generated facts only); harness; JSON transport; mapper assumptions (listed). Not modelled: 'node_id' entries of "
-              "hand-written dicts, the partial state a refused Node.from_dict leaves behind. Print Assumptions: closed under the "
-              "global context for all 17 theorems."),
+              "generated facts only); harness; mapper assumptions (listed).  The JSON transport is the model function json_rt (tuples "
+              "come back as lists, everything else unchanged; floats / non-str keys do not occur): the dump of a tree is proved to be a "
+              "fixed point of it for string data and for mappers writing JSON-able values, the correspondence applies it before "
+              "from_dict, and the harness compares the real json.loads(json.dumps(d)) with it on every case (one mapper kind writes a "
+              "tuple on purpose).  Tuple-valued data_ids (possible through a calc_data_id hook) are outside DataIdType = str|int and "
+              "outside the model: named exclusion, with an Example of what JSON does to them.  'node_id' entries of hand-written dicts "
+              "ARE modelled (nid_of / nid_check: int(), assert, order of the checks; str ids as ASCII digits only).  'from_dict does "
+              "not modify the caller's structure' is outside a pure value model: checked by the harness oracle (snapshot check).  Not "
+              "modelled: the partial state a refused Node.from_dict leaves behind; deserialize mappers that change the 'children' "
+              "entry.  Print Assumptions: closed under the global context for every theorem."),
         technique="Coq proof about an executable Gallina model + differential correspondence check (vm_compute) + Python oracle",
         design_ref="DESIGN.md section 6 (C14)",
     )
@@ -518,14 +545,14 @@ class Prop:
             for si, shape in enumerate(H.forests(n)):
                 for pi, (univ, labeler) in enumerate(pats):
                     nodes = B.shape_to_nodes(shape, labeler)
-                    if n <= (3 if tier == "quick" else 5):
+                    if n <= (3 if tier == "quick" else 4):
                         kinds = SM_KINDS
-                    elif tier == "quick" and n == 4:
-                        kinds = [SM_KINDS[(pi + si + j) % 7] for j in (0, 2, 5)]
+                    elif n == (4 if tier == "quick" else 5):
+                        kinds = [SM_KINDS[(pi + si + j) % 8] for j in (0, 2, 5)]
                     elif tier == "quick":
-                        kinds = [SM_KINDS[(pi + si) % 7]]
+                        kinds = [SM_KINDS[(pi + si) % 8]]
                     else:
-                        kinds = [SM_KINDS[(pi + si) % 6 + 1], "none"]
+                        kinds = [SM_KINDS[(pi + si) % 7 + 1], "none"]
                     for sm in kinds:
                         d = dict(univ=univ, nodes=nodes, sm=sm)
                         if ok(d):
@@ -587,7 +614,7 @@ class Prop:
                     d = hist_desc(shape, 4, [[op, k], ["remove_keep", k]], sm="set" if k % 2 else "none")
                     if ok(d):
                         yield d
-        for _ in range(40 if tier == "quick" else 600):
+        for _ in range(40 if tier == "quick" else 300):
             n = rng.randint(2, 7)
             shape = H.random_shape(rng, n, deep=rng.choice([0.3, 0.7]))
             hist = []
@@ -627,7 +654,7 @@ class Prop:
         # (5) hand-written / malformed inputs of from_dict
         yield from LOADS
         # (5b) random dict lists, mostly valid + malformed entries of every kind (from_dict on ANY input)
-        for _ in range(150 if tier == "quick" else 800):
+        for _ in range(150 if tier == "quick" else 500):
             yield dict(load=random_items(rng, rng.randint(1, 4), 0))
         # (6) Node.from_dict into a node of an existing tree (with and without calc_data_id hook)
         items_pool = [
@@ -718,8 +745,10 @@ class Prop:
         fail = None
         try:
             wire = json.loads(json.dumps(dump))
-            if jv_sx(wire) != jv_sx(dump):
-                fail = "json: dump/load changed the structure"
+            if jv_sx(wire) != jv_sx(json_norm(dump)):
+                fail = "json: dump/load is not the documented transport (tuples -> lists, everything else unchanged)"
+            elif kind != "tuple" and jv_sx(wire) != jv_sx(dump):
+                fail = "json: dump/load changed a structure that has to be JSON-stable"
         except Exception as e:  # noqa: BLE001
             wire = dump
             fail = f"json: structure is not JSON-serialisable ({type(e).__name__})"
@@ -847,6 +876,8 @@ class Prop:
             return str(n._data)
         if kind == "wrap":
             return [str(n._data), enc(n._data, U)]
+        if kind == "tuple":
+            return (str(n._data), enc(n._data, U))
         return enc(n._data, U)
 
     def oracle(self, tree, U, kind, dump, subs, sub_dumps, wire, rebuilt):
@@ -908,7 +939,7 @@ class Prop:
 
         # (b) round trip
         strings_only = all(isinstance(n._data, str) for n in B.all_nodes(root))
-        hyp = (kind == "none" and strings_only) or kind in ("set", "wrap", "new", "extra", "guid")
+        hyp = (kind == "none" and strings_only) or kind in ("set", "wrap", "new", "extra", "guid", "tuple")
 
         def first_refusal(dl):
             """what from_dict has to refuse first, items taken in pre-order: 7 = an item without data_id whose data is
@@ -1118,3 +1149,8 @@ LOADS = [
 ]
 
 PROP = Prop()
+
+import parts  # noqa: E402
+import parts_misc  # noqa: E402
+
+parts.attach(PROP, parts_misc.MAPPER, parts_misc.COMMONMISC)   # common.call_mapper; check_python_version and the exception hierarchy (models Forest/MiscMapper.v, MiscCommon.v; theorems at the end of Properties/C14.v)
